@@ -1231,3 +1231,28 @@ CHECKS["C01"]["note"] = (
     "the unpickler ask for tens of GB, which then is 'raises MemoryError'. Byte damage on the pickles of OK1 and "
     'OK2 only; no multi-byte damage other than truncation.'
 )
+
+CHECKS["C06"]["technique"] = (
+    'explicit-state BFS over deepcopy/edit/observe interleavings on up to 3 live trees, differential oracle against '
+    'fresh parse + own edits through the same route'
+)
+
+CHECKS["C06"]["text"] = (
+    'All histories up to length 3 (quick) / 4 (thorough) with <= 2 / 3 deviations (edit or observation events; <= 2 '
+    'edits, <= 2 observations) over deepcopy of any tree, add/remove symbol/equation/class on a component-type '
+    'class, a base class and the top model, and observation of every class of a live tree through tree.flatten in '
+    'place / the SymPy backend / the XML backend (checked, and kept in the history, so later copies and edits act '
+    'on observed trees), on up to 3 trees (copies of copies included). After every copy or edit every tree is '
+    'observed on a replay of its own -- flatten of a deep copy, every route an earlier observation used, thorough: '
+    "in place always -- and must equal a fresh parse carrying exactly that tree's own edits observed through the "
+    'same route. 2835 transitions quick, 42841 thorough.'
+)
+
+CHECKS["C06"]["note"] = (
+    'One library (component types + extends + modifications); edits through the public AST API only; the expected '
+    'result uses the same AST API and the same route on a never-copied fresh parse (computed before the '
+    "exploration), so defects of add_/remove_ or of a backend's rendering themselves are not seen. Observation "
+    'events observe all classes of a tree in a fixed order (final observations in the reverse order); single-class '
+    'observation events and imports are not in the alphabet. State kept outside the trees is not reset between '
+    'replayed histories of a worker.'
+)
